@@ -94,6 +94,7 @@ def parseT (name : String) (seq : Nat) : Option T :=
   | "TNak" => some (.nak seq)
   | _ => none
 
+-- DRIVER: tpci => XknxVerif.TPCI.handle
 /-- Line protocol:
   `resolve <raw> <grp:0|1> <zero:0|1>` → `ok <PDU> <re-encoded>` | `err conversion`
   `encode <Class> <seq>` → `<octet>` -/
